@@ -11,7 +11,7 @@ RULE = ('case = one (reference, spelling) pair probed through AnsiString(\'x\', 
         'mixtures and nestings; malformed forms must raise the stated type.  Non-trivial: the form is not the '
         'canonical member form; distinct = distinct (reference, form).')
 ASSUMPTIONS = ['AnsiString(\'x\', form).ansi_settings_at(0) and str() are the observation',
-               'bool as int, color256(n) outside 0..255, colour groups split across nesting levels are grey']
+               'bool as int and color256(n) outside 0..255 are grey']
 MIN_EVAL = 2000
 CASES = {'quick': 320, 'thorough': 7200}
 EXHAUSTIVE = False
@@ -226,7 +226,10 @@ def check_helpers(ctx, L, rng):
 
 
 NEG = [
-    ('unknown-name', ['notacolor', 'bold_', 'redd', 'fg red x', 'rgb', 'bold;nope', 'ul_', 'colour'], ValueError),
+    ('unknown-name', ['notacolor', 'bold_', 'redd', 'fg red x', 'rgb', 'bold;nope', 'ul_', 'colour',
+                      # not names in any letter case, although str.upper() maps them onto one
+                      'cro\xdfed_out', '\u017flow_blink', '\u0131talic', '\ufb02oral_white', 'bold;\u0131talic', 'fg_\u017feashell',
+                      '\u0131nvert', 'bg_m\u0131nt_cream'], ValueError),
     ('negative-int', [-1, -255, [-1], (1, -2), '-1', '1;-2'], ValueError),
     ('malformed-rgb', ['rgb()', 'rgb(1,2)', 'rgb(1,2,3,4)', 'rgb(T)', 'ul_rgb(T)', 'rgb(-1,0,0)', 'rgb(ff,0,0)',
                        'rgb(1;2;3)', 'color256()', 'color256(1,2)', 'colour256(x)', 'bg_rgb(1,,2)', 'rgb(0x)',
@@ -388,6 +391,62 @@ def check_mixture(ctx, L, rng, names):
                       mech='mixture-string-codes-and-names')
 
 
+def split_nested(rng, items, depth):
+    """the same items in order, with brackets placed anywhere (also inside what is one setting when flat)"""
+    if depth <= 0 or len(items) <= 1:
+        return list(items)
+    out = []
+    i = 0
+    while i < len(items):
+        if rng.random() < 0.5:
+            j = rng.randint(i + 1, len(items))
+            sub = split_nested(rng, items[i:j], depth - 1)
+            out.append(sub if rng.random() < 0.6 else tuple(sub))
+            i = j
+        else:
+            out.append(items[i])
+            i += 1
+    if rng.random() < 0.2:
+        out.insert(rng.randint(0, len(out)), rng.choice([[], ()]))
+    return out
+
+
+def check_int_nesting(ctx, L, rng, names):
+    """integer codes of 1-3 members as one flat list vs the same integers in order under arbitrary bracketing
+    ("arbitrarily nested lists/tuples of these (flattened in order)"): brackets must not matter, also where they cut
+    through an extended-colour group"""
+    picks = [rng.choice(names) for _ in range(rng.randint(1, 3))]
+    ints = []
+    for n in picks:
+        ints += flat_ints([str(s) for s in L.AnsiFormat[n].ansi_settings])
+    flat = probe(L, list(ints))
+    items = [x if rng.random() < 0.85 else str(x) for x in ints]
+    form = split_nested(rng, items, rng.randint(1, 3))
+    got = probe(L, form)
+    ctx.ev('int-nesting')
+    ctx.sig('int-nesting:' + ('colour-group' if any(x in (38, 48, 58) for x in ints) else 'single-codes'))
+    ctx.nontriv(('intnest', tuple(ints), repr(form)))
+    if isinstance(flat, Exception) or isinstance(got, Exception) or got[0] != flat[0] or got[1] != flat[1]:
+        ctx.violation('nesting-changes-the-reading', {
+            'members': picks, 'flat': ints, 'nested': repr(form),
+            'flat_reports': repr(flat) if isinstance(flat, Exception) else flat[0],
+            'nested_reports': repr(got) if isinstance(got, Exception) else got[0]}, mech='int-nesting')
+        return
+    # a second range on top shows whether both are seen as the same (parsable, optimisable) settings
+    try:
+        a = L.AnsiString('xy')
+        a.apply_formatting(list(ints), 0, 2)
+        a.apply_formatting('bold', 1, 2)
+        b = L.AnsiString('xy')
+        b.apply_formatting(form, 0, 2)
+        b.apply_formatting('bold', 1, 2)
+        if str(a) != str(b) or a.is_formatting_parsable() != b.is_formatting_parsable():
+            ctx.violation('nesting-changes-the-rendering', {'members': picks, 'flat': ints, 'nested': repr(form),
+                                                            'flat_str': str(a), 'nested_str': str(b)}, mech='int-nesting')
+    except Exception as e:
+        ctx.violation('nesting-raised', {'members': picks, 'nested': repr(form), 'error': repr(e)}, mech='int-nesting')
+
+
 def check_nested(ctx, L, rng, names):
     """the same spelling used twice in one value (nested ranges with a conflicting setting in between, or a second
     non-topmost application) must report, character by character, what the canonical objects report: two uses of
@@ -475,5 +534,7 @@ def drive(ctx, mon, tier, only_case=None):
                 check_mixture(ctx, L, rng, names)
             for _ in range(4):
                 check_nested(ctx, L, rng, names)
+            for _ in range(4):
+                check_int_nesting(ctx, L, rng, names)
 
     run_cases(ctx, mon, CASES[tier], body, only_case=only_case)
